@@ -146,6 +146,17 @@ func main() {
 		c, e := passConsts(root)
 		add("Consts.lean", c, e)
 	}
+	{
+		c, e := passFormulas(root)
+		add("Formulas.lean", c, e)
+	}
+	{
+		c, e := passTable(root)
+		for n, s := range c {
+			add(n, s, nil)
+		}
+		errs = append(errs, e...)
+	}
 	if len(errs) > 0 {
 		sort.Strings(errs)
 		for _, e := range errs {
